@@ -143,6 +143,7 @@ class StepwisePPO(RL4COLitModule):
     ):
         next_td = self.env.reset(batch)
         device = next_td.device
+        out = {}  # batches that only fill the buffer (update_timestep > 1) have nothing to report
         if phase == "train":
             while not next_td["done"].all():
                 with torch.no_grad():
